@@ -69,7 +69,11 @@ Record resp := mkResp { rs_version : N; rs_status : N; rs_headers : headers; rs_
 (** what the client of one exchange receives *)
 Inductive wreply :=
 | WResp (r : resp)
-| WRefused.     (** h2: [send_response] = Err(UserError::MalformedHeaders) -> ClientRefusedResponse; no head is sent *)
+| WRefused      (** h2: [send_response] = Err(UserError::MalformedHeaders) -> ClientRefusedResponse; no head is sent *)
+| WBroken.      (** what follows the head is not the body the head announces: HTTP/1 — fewer or more bytes than
+                    [content-length] says (or no [content-length] at all on a connection that stays open), or any byte
+                    after the head of a HEAD answer; HTTP/2 — DATA that contradicts [content-length] / follows a HEAD
+                    answer (the h2 client resets the stream), or a stream that is never ended *)
 
 (** ---------------------------------------------------------------------------------------------
     [send]: everything between [handle_cache]'s return value and the bytes on the connection
@@ -168,6 +172,119 @@ Section Send.
         if h2_refuses h3 then Ok WRefused else Ok (WResp (mkResp v (rs_status r1) h3 body))
     end).
 
+  (** ---- [SendKind::send] at the level of the response pipe: head, body, future, close ----
+      What the server does to [ResponsePipe] / [ResponseBodyPipe], in order, and what thereby arrives at the client.
+      A response may carry a [ResponsePipeFuture] (FatResponse::with_future / with_future_and_len:
+      [extensions::stream_body], streamed reverse-proxy bodies) that writes the real body to the pipe after the head. *)
+  (** what has arrived at the client of one exchange: the head (version, status, headers), the bytes after it, and —
+      HTTP/2 — whether END_STREAM was sent *)
+  Record arrived := mkArr { a_head : option (N * N * headers); a_bytes : bytes; a_ended : bool }.
+  Definition arr0 : arrived := mkArr None [] false.
+
+  (** [ResponsePipe::send_response(response, end_of_stream)]; [None] = it returns an error.  The HTTP/1 arm ignores
+      [end_of_stream]; the HTTP/2 arm hands it to h2 (END_STREAM on the HEADERS frame). *)
+  Definition pipe_head (p : proto) (v st : N) (h : headers) (eos : bool) : option arrived :=
+    match p with
+    | H1 => Some (mkArr (Some (v, st, h1_connection h)) [] false)
+    | H2 => let h' := h2_strip h in
+            if h2_refuses h' then None else Some (mkArr (Some (v, st, h')) [] eos)
+    end.
+  (** [ResponseBodyPipe::send_with_maybe_close(data, end_of_stream)] ([send] = [.., false], [close] = [empty, true]):
+      nothing is done for empty data that does not end the stream; h2's [send_data] fails on a stream already ended *)
+  Definition pipe_data (p : proto) (a : arrived) (b : bytes) (eos : bool) : option arrived :=
+    if negb eos && (N.of_nat (length b) =? 0) then Some a else
+    match p with
+    | H1 => Some (mkArr (a_head a) (a_bytes a ++ b) (a_ended a))
+    | H2 => if a_ended a then None else Some (mkArr (a_head a) (a_bytes a ++ b) eos)
+    end.
+  (** the future: [pipe.send(chunk)] for every chunk; it gives up at the first error (as [stream_body] does) *)
+  Fixpoint pipe_chunks (p : proto) (a : arrived) (chunks : list bytes) : arrived :=
+    match chunks with
+    | [] => a
+    | c :: rest => match pipe_data p a c false with Some a' => pipe_chunks p a' rest | None => a end
+    end.
+
+  (** the [Send] arm of [SendKind::send] after the Package chain.  [head_eos] = the [end_of_stream] argument of
+      [send_response] — [false] in kvarn; [ret_log_app_error!] ends [send] at the first failing pipe operation of its
+      own (head, body, close), a failing write of the future only ends the future.  [run_future]: is
+      [future.call] reached (repaired: not for HEAD). *)
+  Definition pipe_send (p : proto) (head_eos : bool) (v st : N) (h : headers) (body : option bytes)
+      (chunks : list bytes) : arrived :=
+    match pipe_head p v st h head_eos with
+    | None => arr0
+    | Some a1 =>
+        match (match body with Some b => pipe_data p a1 b false | None => Some a1 end) with
+        | None => a1
+        | Some a2 =>
+            let a3 := pipe_chunks p a2 chunks in
+            match pipe_data p a3 [] true with Some a4 => a4 | None => a3 end
+        end
+    end.
+
+  (** what the client makes of it (request method [m]).  HTTP/1: the connection stays open, so the body is exactly
+      the [content-length] bytes after the head (none for HEAD); anything else leaves the connection out of step.
+      HTTP/2: the DATA frames up to END_STREAM; h2's client resets the stream when they contradict a [content-length]
+      in the head or follow the head of a HEAD answer. *)
+  Definition receive (p : proto) (m : N) (a : arrived) : wreply :=
+    match a_head a with
+    | None => WRefused
+    | Some (v, st, h) =>
+        let n := N.of_nat (length (a_bytes a)) in
+        let whole := WResp (mkResp v st h (a_bytes a)) in
+        if m =? M_HEAD then (if n =? 0 then (match p with H1 => whole | H2 => if a_ended a then whole else WBroken end) else WBroken)
+        else match p with
+             | H1 => match assoc H_CL h with
+                     | Some c => if beq c (dec n) then whole else WBroken
+                     | None => WBroken
+                     end
+             | H2 => if negb (a_ended a) then WBroken else
+                     match assoc H_CL h with
+                     | Some c => if beq c (dec n) then whole else WBroken
+                     | None => whole
+                     end
+             end
+    end.
+
+  (** [SendKind::send] with an optional streaming future [f] = (the chunks it writes, the overridden length of
+      [with_future_and_len]).  With a future [apply_to_response] does nothing ([is_stream]) and the length stated is
+      the overridden one — none at all for [with_future].  [head_future] = the code before the repair 572c88a, which
+      ran the future also for HEAD. *)
+  Definition send_pipe (head_future : bool) (p : proto) (secure : bool) (alt : option bytes) (m : N)
+      (sd : outcome (option (N * N))) (r : resp) (f : option (list bytes * option N)) : outcome wreply :=
+    let r0 := add_alt_svc secure alt r in
+    obind (match f with None => apply_sd sd r0 | Some _ => Ok r0 end) (fun r1 =>
+    let olen := match f with Some (_, ol) => ol | None => Some (N.of_nat (length (rs_body r1))) end in
+    let h1 := match olen with Some n => ensure_length p n (rs_headers r1) | None => rs_headers r1 end in
+    let v := ensure_version p (rs_version r1) in
+    let h2 := pkg v h1 in
+    let body := if sends_body m (rs_body r1) then Some (rs_body r1) else None in
+    let chunks := match f with
+                  | Some (cs, _) => if head_future || negb (m =? M_HEAD) then cs else []
+                  | None => []
+                  end in
+    Ok (receive p m (pipe_send p false v (rs_status r1) h2 body chunks))).
+
+  (** the future's bytes are framed: the length the handler overrides (or, with [with_future], the [content-length]
+      it states itself) is the number of bytes body and future write *)
+  Definition fut_framed (r : resp) (f : option (list bytes * option N)) : Prop :=
+    match f with
+    | None => True
+    | Some (cs, Some n) => n = N.of_nat (length (rs_body r ++ concat cs))
+    | Some (cs, None) => assoc H_CL (rs_headers r) = Some (dec (N.of_nat (length (rs_body r ++ concat cs))))
+    end.
+
+  (** [handle_connection]'s own answers — 429 of the host's request limiter ([limiting::get_too_many_requests]), 409 when no
+      host is found —: [ensure_length], [ensure_version], [send_response(.., false)], then
+      [send_with_maybe_close(body, true)] with the body emptied for HEAD.  No [alt-svc], no range, no Package chain. *)
+  Definition send_direct (p : proto) (m : N) (r : resp) : outcome wreply :=
+    let h1 := ensure_length p (N.of_nat (length (rs_body r))) (rs_headers r) in
+    let v := ensure_version p (rs_version r) in
+    let body := if m =? M_HEAD then [] else rs_body r in
+    Ok (receive p m (match pipe_head p v (rs_status r) h1 false with
+                     | None => arr0
+                     | Some a1 => match pipe_data p a1 body true with Some a2 => a2 | None => a1 end
+                     end)).
+
   (** ---- what the property compares: everything except the version and the connection-level headers ---- *)
   Definition hop (n : bytes) : bool :=
     beq n H_CONN || beq n H_KA || beq n H_PROXYC || beq n H_TENC || beq n H_UPGRADE || beq n H_TE
@@ -177,6 +294,7 @@ Section Send.
     match w with
     | WResp r => WResp (mkResp 0 (rs_status r) (strip (rs_headers r)) (rs_body r))
     | WRefused => WRefused
+    | WBroken => WBroken
     end.
   Definition onorm (o : outcome wreply) : outcome wreply :=
     match o with Ok w => Ok (normalise w) | Err e => Err e | Panic => Panic end.
@@ -186,6 +304,7 @@ Section Send.
     match w with
     | WResp r => WResp (mkResp (rs_version r) (rs_status r) (rs_headers r) [])
     | WRefused => WRefused
+    | WBroken => WBroken
     end.
   Definition odrop (o : outcome wreply) : outcome wreply :=
     match o with Ok w => Ok (drop_body w) | Err e => Err e | Panic => Panic end.
@@ -240,6 +359,7 @@ Section ConnLoop.
             let cs' := match p with
                        | H2 => COpen                              (* own stream, own task: a panic resets that stream only *)
                        | H1 => match w with
+                               | Ok WBroken => CClosed            (* client and server are out of step from here on *)
                                | Ok _ => h1_after drain s q
                                | _ => CClosed                     (* the connection's task panicked *)
                                end
@@ -264,6 +384,61 @@ End ConnLoop.
     depend on the version or on connection-level headers of the head it is given *)
 Definition pkg_oblivious (pkg : N -> headers -> headers) : Prop :=
   forall v v' h h', strip h = strip h' -> strip (pkg v h) = strip (pkg v' h').
+
+(** ... and leaves [content-length] alone (on HTTP/1 that header is the framing of the message) *)
+Definition pkg_keeps_length (pkg : N -> headers -> headers) : Prop :=
+  forall v h, assoc H_CL (pkg v h) = assoc H_CL h.
+
+(** ---------------------------------------------------------------------------------------------
+    which BYTES a handler gets from [Body::read_to_bytes(max_len)] (src/application.rs)
+    --------------------------------------------------------------------------------------------- *)
+(** [Http1Body]: the bytes that arrived with the head, what the client still sends on the connection, [content_length] *)
+Record h1body := mkH1B { hb_early : bytes; hb_conn : bytes; hb_cl : N }.
+(** [len = min(content_length, max_len)]; nothing for [len = 0] (and [content_length] stays); else the early bytes first,
+    the rest through [take(len - buffer.len())] from the connection; [content_length = 0]: nothing the next time *)
+Definition h1_read_to_bytes (b : h1body) (max_len : N) : bytes * h1body :=
+  let len := N.min (hb_cl b) max_len in
+  if len =? 0 then ([], b) else
+  let e := firstn (N.to_nat len) (hb_early b) in
+  let need := (N.to_nat len - length e)%nat in
+  (e ++ firstn need (hb_conn b), mkH1B (hb_early b) (skipn need (hb_conn b)) 0).
+(** the HTTP/2 arm: DATA frames are taken one by one ([h2.data().await], capacity released) and appended up to
+    [left = max_len.saturating_sub(bytes.len())]; the loop ends when a frame is taken while [left = 0] (that frame is
+    dropped), when [left] reaches 0 after a frame (the rest of that frame is dropped), or with the stream.
+    Returns what the handler gets and the frames not taken yet. *)
+Fixpoint h2_read_loop (max_len : N) (acc : bytes) (frames : list bytes) : bytes * list bytes :=
+  match frames with
+  | [] => (acc, [])
+  | d :: rest =>
+      if (max_len - N.of_nat (length acc)) =? 0 then (acc, rest) else
+      let acc' := acc ++ firstn (N.to_nat (max_len - N.of_nat (length acc))) d in
+      if (max_len - N.of_nat (length acc')) =? 0 then (acc', rest) else h2_read_loop max_len acc' rest
+  end.
+Definition h2_read_to_bytes (frames : list bytes) (max_len : N) : bytes * list bytes := h2_read_loop max_len [] frames.
+
+(** a handler that calls [read_to_bytes] once per limit of [limits]: what every call returns *)
+Fixpoint h1_reads (b : h1body) (limits : list N) : list bytes :=
+  match limits with
+  | [] => []
+  | l :: rest => let '(got, b') := h1_read_to_bytes b l in got :: h1_reads b' rest
+  end.
+Fixpoint h2_reads (frames : list bytes) (limits : list N) : list bytes :=
+  match limits with
+  | [] => []
+  | l :: rest => let '(got, fr') := h2_read_to_bytes frames l in got :: h2_reads fr' rest
+  end.
+
+(** [extensions::stream_body] (the in-tree producer of streamed responses): which bytes of the file its future writes and
+    the length it announces with [with_future_and_len]; [None] = it answers 416.  [range] = [sanitize_request]'s
+    (start, end) with start < end, end exclusive.  [clamp = false] is the code before the repair 7cbe1e5. *)
+Definition stream_plan (clamp : bool) (file : bytes) (range : option (N * N)) : option (bytes * N) :=
+  let flen := N.of_nat (length file) in
+  let start := match range with Some (a, _) => a | None => 0 end in
+  let e0 := match range with Some (_, e) => e | None => flen end in
+  let e := if clamp then N.min e0 flen else e0 in
+  if clamp && match range with Some _ => flen <=? start | None => false end then None else
+  (* the future seeks to [start] and writes until [pos >= end] or the end of the file *)
+  Some (firstn (N.to_nat (e - start)) (skipn (N.to_nat start) file), e - start).
 
 (** ---- a menu of Package extensions (the harness registers the same ones on the real host) ---- *)
 Inductive pkg_op :=
@@ -480,7 +655,7 @@ End Answer.
 Definition x_headers (h : headers) : xval := XL (map (fun kv => XL [XB (fst kv); XB (snd kv)]) h).
 Definition x_resp (r : resp) : xval := XL [XN (rs_version r); XN (rs_status r); x_headers (rs_headers r); XB (rs_body r)].
 Definition x_wreply (w : wreply) : xval :=
-  match w with WResp r => XL [XN 0; x_resp r] | WRefused => XL [XN 3] end.
+  match w with WResp r => XL [XN 0; x_resp r] | WRefused => XL [XN 3] | WBroken => XL [XN 4] end.
 
 Definition d_hpair (x : xval) : option (bytes * bytes) :=
   match x with XL [XB a; XB c] => Some (a, c) | _ => None end.
@@ -503,20 +678,34 @@ Definition d_proto (x : xval) : option proto :=
 Definition sd_of (path_ok : bool) (range : option bytes) : outcome (option (N * N)) :=
   if path_ok then sanitize_range range else Err 400.
 
-(** one exchange: (L method (L [range]) path_ok l4) or (L method (L [range]) path_ok l4 body_len (L [want]))
-    — [body_len] bytes of request body follow the head; [want] = [l]: the handler that answers reads [read_to_bytes(l)] *)
-Record exch := mkEx { ex_method : N; ex_range : option bytes; ex_path_ok : bool; ex_l4 : resp; ex_blen : N; ex_want : option N }.
+(** one exchange: (L method (L [range]) path_ok l4), (L method (L [range]) path_ok l4 body_len (L [want])) or
+    (L method (L [range]) path_ok l4 body_len (L [want]) (L limited (L [(L stream_bytes (L [len]))])))
+    — [body_len] bytes of request body follow the head; [want] = [l]: the handler that answers reads [read_to_bytes(l)];
+    [limited]: the host's request limiter answers (429; [l4] is then that page); the stream: what the response's
+    [ResponsePipeFuture] writes (observed in process) and the length the handler overrides *)
+Record exch := mkEx { ex_method : N; ex_range : option bytes; ex_path_ok : bool; ex_l4 : resp; ex_blen : N; ex_want : option N;
+                      ex_limited : bool; ex_fut : option (list bytes * option N) }.
+Definition d_fut (x : xval) : option (list bytes * option N) :=
+  match x with
+  | XL [XB b; ol] => option_map (fun o => ([b], o)) (d_option d_N ol)
+  | _ => None
+  end.
 Definition d_exch (x : xval) : option exch :=
   match x with
   | XL [XB m; rg; po; l4] =>
       match d_option d_B rg, d_bool po, d_resp l4 with
-      | Some rg', Some po', Some r => Some (mkEx (method_of_bytes m) rg' po' r 0 None)
+      | Some rg', Some po', Some r => Some (mkEx (method_of_bytes m) rg' po' r 0 None false None)
       | _, _, _ => None
       end
   | XL [XB m; rg; po; l4; XN bl; w] =>
       match d_option d_B rg, d_bool po, d_resp l4, d_option d_N w with
-      | Some rg', Some po', Some r, Some w' => Some (mkEx (method_of_bytes m) rg' po' r bl w')
+      | Some rg', Some po', Some r, Some w' => Some (mkEx (method_of_bytes m) rg' po' r bl w' false None)
       | _, _, _, _ => None
+      end
+  | XL [XB m; rg; po; l4; XN bl; w; XL [lim; fu]] =>
+      match d_option d_B rg, d_bool po, d_resp l4, d_option d_N w, d_bool lim, d_option d_fut fu with
+      | Some rg', Some po', Some r, Some w', Some lim', Some fu' => Some (mkEx (method_of_bytes m) rg' po' r bl w' lim' fu')
+      | _, _, _, _, _, _ => None
       end
   | _ => None
   end.
@@ -534,8 +723,9 @@ Definition d_case (x : xval) : option (bool * list pkg_op * option bytes * resp 
 
 Definition send_ex (checked : bool) (ops : list pkg_op) (alt : option bytes) (e416 : resp)
     (p : proto) (secure : bool) (e : exch) : outcome wreply :=
-  send checked (fun _ => e416) (pkg_menu ops) p secure alt (ex_method e)
-       (sd_of (ex_path_ok e) (ex_range e)) (ex_l4 e).
+  if ex_limited e then send_direct p (ex_method e) (ex_l4 e) else
+  send_pipe checked (fun _ => e416) (pkg_menu ops) false p secure alt (ex_method e)
+            (sd_of (ex_path_ok e) (ex_range e)) (ex_l4 e) (ex_fut e).
 
 (** the history of a case on ONE connection of protocol [p]: the connection loop over the observed layer-4 responses
     (the application state is in the observations: [unit] here).  The harness's HTTP/1 client writes head and body in one
@@ -583,6 +773,16 @@ Definition run_pair : xval -> xval := run_pair_gen true.
     end-to-end headers only, the body unless HEAD. *)
 Definition spec_ex (ops : list pkg_op) (e416 : resp) (e : exch) : wreply :=
   let r := ex_l4 e in
+  if ex_limited e then
+    (* the limiter's page as it is: no range, no Package chain *)
+    WResp (mkResp 0 (rs_status r) (strip (rs_headers r)) (if ex_method e =? M_HEAD then [] else rs_body r))
+  else
+  match ex_fut e with
+  | Some (cs, _) =>
+      (* a streamed response: no range is applied; the body is what body and future write, in that order *)
+      WResp (mkResp 0 (rs_status r) (strip (pkg_menu ops 0 (strip (rs_headers r))))
+                   (if ex_method e =? M_HEAD then [] else rs_body r ++ concat cs))
+  | None =>
   let after_range : resp :=
     match sd_of (ex_path_ok e) (ex_range e) with
     | Ok range =>
@@ -599,7 +799,8 @@ Definition spec_ex (ops : list pkg_op) (e416 : resp) (e : exch) : wreply :=
     end in
   WResp (mkResp 0 (rs_status after_range)
                (strip (pkg_menu ops 0 (strip (rs_headers after_range))))
-               (if ex_method e =? M_HEAD then [] else rs_body after_range)).
+               (if ex_method e =? M_HEAD then [] else rs_body after_range))
+  end.
 Definition run_pair_spec (x : xval) : xval :=
   match d_case x with
   | Some (_, ops, _, e416, exs) => XL (map (fun e => x_wreply (spec_ex ops e416 e)) exs)
@@ -648,8 +849,21 @@ Fixpoint insert_by_sid (o : N * xval) (l : list (N * xval)) : list (N * xval) :=
 Definition d_stream (x : xval) : option (N * bytes * bool) :=
   match x with
   | XL [XN sid; XB path; c] => option_map (fun c' => (sid, path, c')) (d_bool c)
+  | XL [XN sid; XB path; c; _] => option_map (fun c' => (sid, path, c')) (d_bool c)
   | _ => None
   end.
+(** (L sid class cacheable (L [ms])): a stream the client cancels (RST_STREAM) [ms] after the request — its task may run
+    none, one or both of its blocks on the server; whatever it does, it is not answered (not part of the output), and
+    by [stream_independence] it changes no other stream's answer: the model lets it run like the others *)
+Definition stream_cancelled (x : xval) : bool :=
+  match x with XL [_; _; _; XL (_ :: _)] => true | _ => false end.
+Definition cancelled_sids (ss : xval) : list N :=
+  match ss with
+  | XL l => flat_map (fun x => if stream_cancelled x then match x with XL (XN sid :: _) => [sid] | _ => [] end else []) l
+  | _ => []
+  end.
+Definition drop_cancelled (ss : xval) (ws : list (N * xval)) : list (N * xval) :=
+  filter (fun o => negb (existsb (N.eqb (fst o)) (cancelled_sids ss))) ws.
 Definition run_burst (p : proto) (x : xval) : xval :=
   match x, d_case x with
   | XL [_; _; _; _; _; _; ss; sc], Some (checked, ops, alt, e416, exs) =>
@@ -667,12 +881,13 @@ Definition run_burst (p : proto) (x : xval) : xval :=
           let wires := map (fun '(sid, r0, rp) =>
                           (sid, match exof sid with
                                 | Some e => x_outcome x_wreply
-                                              (send checked (fun _ => e416) (pkg_menu ops) p true alt (ex_method e)
+                                              (send_pipe checked (fun _ => e416) (pkg_menu ops) false p true alt (ex_method e)
                                                     (sd_of (ex_path_ok e) (ex_range e))
-                                                    (mkResp (rs_version (ex_l4 e)) (rp_status rp) (rp_headers rp) (rp_body rp)))
+                                                    (mkResp (rs_version (ex_l4 e)) (rp_status rp) (rp_headers rp) (rp_body rp))
+                                                    (ex_fut e))
                                 | None => bad_input
                                 end)) outs in
-          XL (map (fun o => XL [XN (fst o); snd o]) (fold_right insert_by_sid [] wires))
+          XL (map (fun o => XL [XN (fst o); snd o]) (drop_cancelled ss (fold_right insert_by_sid [] wires)))
       | _, _ => bad_input
       end
   | _, _ => bad_input
@@ -685,10 +900,58 @@ Definition run_burst_spec (p : proto) (x : xval) : xval :=
       | Some strs =>
           let wires := map (fun '((sid, _, _), e) => (sid, x_outcome x_wreply (send_ex checked ops alt e416 p true e)))
                            (combine strs exs) in
-          XL (map (fun o => XL [XN (fst o); snd o]) (fold_right insert_by_sid [] wires))
+          XL (map (fun o => XL [XN (fst o); snd o]) (drop_cancelled ss (fold_right insert_by_sid [] wires)))
       | None => bad_input
       end
   | _, _ => bad_input
+  end.
+
+(** "proto.body": a handler that calls [read_to_bytes(l)] for every [l] of [limits] on a request body sent over either protocol
+    input (L body (L frame_len ...) early (L limit ...)): over HTTP/2 the body arrives in DATA frames of these lengths
+    (the rest in one more), over HTTP/1.1 [early] bytes of it arrive with the head
+    output (L (L read ...) (L read ...)) — what the calls return on HTTP/1.1 and on HTTP/2 *)
+Fixpoint split_frames (lens : list N) (b : bytes) : list bytes :=
+  match lens with
+  | [] => match b with [] => [] | _ => [b] end
+  | l :: rest => firstn (N.to_nat l) b :: split_frames rest (skipn (N.to_nat l) b)
+  end.
+Definition run_body (x : xval) : xval :=
+  match x with
+  | XL [XB body; fl; XN early; ls] =>
+      match d_list d_N fl, d_list d_N ls with
+      | Some lens, Some limits =>
+          let e := N.to_nat (N.min early (N.of_nat (length body))) in
+          XL [XL (map XB (h1_reads (mkH1B (firstn e body) (skipn e body) (N.of_nat (length body))) limits));
+              XL (map XB (h2_reads (split_frames lens body) limits))]
+      | _, _ => bad_input
+      end
+  | _ => bad_input
+  end.
+(** its specification: the first call returns the first [l] bytes of the body, every further call nothing — on both
+    protocols (for a first limit of at least 1) *)
+Definition run_body_spec (x : xval) : xval :=
+  match x with
+  | XL [XB body; _; _; ls] =>
+      match d_list d_N ls with
+      | Some (l :: rest) =>
+          let want := XL (XB (firstn (N.to_nat l) body) :: map (fun _ => XB []) rest) in XL [want; want]
+      | _ => bad_input
+      end
+  | _ => bad_input
+  end.
+
+(** "proto.sbody": [extensions::stream_body] on a file: (L file (L [(L start end)])) -> (L) for 416, (L (L bytes len)) *)
+Definition run_sbody (x : xval) : xval :=
+  match x with
+  | XL [XB file; rg] =>
+      match d_option (fun y => match y with XL [XN a; XN c] => Some (a, c) | _ => None end) rg with
+      | Some range => match stream_plan true file range with
+                      | Some (b, n) => XL [XL [XB b; XN n]]
+                      | None => XL []
+                      end
+      | None => bad_input
+      end
+  | _ => bad_input
   end.
 
 Definition protocols_table : list (bytes * (xval -> xval)) :=
@@ -702,4 +965,8 @@ Definition protocols_table : list (bytes * (xval -> xval)) :=
     (B "proto.alone", run_burst_spec H2);
     (B "proto.burst1", run_burst H1);
     (B "proto.burst1_spec", run_burst_spec H1);
-    (B "proto.alone1", run_burst_spec H1) ].
+    (B "proto.alone1", run_burst_spec H1);
+    (B "proto.burst2", run_burst H2);        (* the same burst spread over two HTTP/2 connections *)
+    (B "proto.body", run_body);
+    (B "proto.body_spec", run_body_spec);
+    (B "proto.sbody", run_sbody) ].
